@@ -242,6 +242,28 @@ fn check_state(inst: &v1::Instance, init: &v1::Instance, rm: &RefModel, init_eva
             }
         }
     }
+    // the same through the sampled entry point: all complete states as one sample set
+    let complete: Vec<(u64, &Vec<(u64, f64)>, &v1::Solution)> = init_evals.iter().enumerate().filter_map(|(k, (st, b))| b.as_ref().map(|b| (k as u64 * 3 + 1, st, b))).collect();
+    let mut samples = v1::Samples::default();
+    for (id, st, _) in &complete {
+        samples.add_sample(*id, mk_state(st));
+    }
+    match sdk(|| inst.evaluate_samples(&samples).map_err(|e| format!("{e:#}"))) {
+        Err(e) | Ok(Err(e)) => out.push(("evaluate_samples-error".into(), format!("evaluate_samples over the grid states failed: {e}"))),
+        Ok(Ok((ss, _))) => {
+            for (id, st, base) in &complete {
+                let relaxed = base.evaluated_constraints.iter().filter(|c| rm.active.contains(&c.id)).all(|c| feasible_by_rule(c.equality, c.evaluated_value).unwrap_or(false));
+                let got = (ss.feasible.get(id).cloned(), ss.feasible_relaxed.get(id).cloned());
+                if got != (Some(base.feasible), Some(relaxed)) {
+                    out.push((
+                        "sampled-feasibility".into(),
+                        format!("evaluate_samples at {st:?}: (feasible, feasible_relaxed) = {got:?}; the initial instance gives feasible = {}, the currently active constraints {:?} give feasible_relaxed = {relaxed}", base.feasible, rm.active),
+                    ));
+                    break;
+                }
+            }
+        }
+    }
     out
 }
 
@@ -506,7 +528,7 @@ pub fn run(ctx: &Ctx) -> Finish {
     });
     Finish {
         level: "model_checking",
-        rule: "explicit-state breadth-first search (stateright) from each initial instance (incl. two in which a variable that a constraint mentions carries a fixed value) over the actions relax(id, reason in {a, empty string}, params in {none,{k:v}}), relax(id, a reason with leading and trailing whitespace) and restore(id) for every constraint id and the unknown id 99; the instance message IS the state (dedup key = its bytes + reference model), so all histories of any length are covered; every transition is compared with a two-set reference model and every reachable state is checked: active+removed multiset of (id, function, equality, metadata) unchanged, ids partitioned, recorded reasons, and on all 27 grid states per-constraint values and feasible equal the initial instance's while feasible_relaxed follows the currently active constraints; three incomplete states (each variable omitted) are accepted or rejected exactly as by the initial instance".into(),
+        rule: "explicit-state breadth-first search (stateright) from each initial instance (incl. two in which a variable that a constraint mentions carries a fixed value) over the actions relax(id, reason in {a, empty string}, params in {none,{k:v}}), relax(id, a reason with leading and trailing whitespace) and restore(id) for every constraint id and the unknown id 99; the instance message IS the state (dedup key = its bytes + reference model), so all histories of any length are covered; every transition is compared with a two-set reference model and every reachable state is checked: active+removed multiset of (id, function, equality, metadata) unchanged, ids partitioned, recorded reasons, and on all 27 grid states per-constraint values and feasible equal the initial instance's while feasible_relaxed follows the currently active constraints; three incomplete states (each variable omitted) are accepted or rejected exactly as by the initial instance; evaluate_samples over all grid states reports the same two flags per sample".into(),
         bounds: json!({"constraint_sets": sets.len(), "constraints_per_instance": if ctx.tier == Tier::Thorough { "3, 4 or 5" } else { "3 or 4" }, "initial_instances": "0,1,2,all initially removed", "actions_per_state": "6 per id incl. unknown id", "histories": "all lengths (full reachable state space)"}),
         exhaustive: true,
     }
